@@ -116,6 +116,22 @@ def op_fail_parse(ci, tname):
     return (f"fail_parse(cs{ci},{tname})", run, lambda w: True)
 
 
+def op_fail_parse_at_unit(ci):
+    """Input that ends exactly where the bit-field storage unit of S1 starts."""
+    def run(w: World):
+        cfg = w.cfg(ci)
+        from ..refmodel.types import layout as _layout
+
+        offs, _, _ = _layout(S1, cfg)
+        k = next(o[1] for f, o in zip(S1.fields, offs) if f.name == "b1")
+        try:
+            w.cs[ci].S1(data_for("S1", 0)[:k])
+        except EOFError:
+            return
+        raise AssertionError("parse of S1 cut at the bit-field unit did not raise EOFError")
+    return (f"fail_parse_at_unit(cs{ci})", run, lambda w: True)
+
+
 def op_fail_expr(ci):
     """A parse that fails INSIDE the evaluation of a size expression (division by zero), with operands already pending."""
     def run(w: World):
@@ -252,7 +268,7 @@ def op_load_alias_user(ci):
 
 def alphabet(tier):
     ops = [op_new_default(0, "S1"), op_new_default(1, "S1"), op_new_default(0, "S2"), op_new_kw(0), op_new_kw(1),
-           op_parse(0, "S1", 0), op_parse(1, "S1", 1), op_parse(0, "S2", 0), op_fail_parse(0, "S1"), op_fail_parse(0, "S2"), op_fail_expr(0), op_new_all_none(0), op_new_positional(0)]
+           op_parse(0, "S1", 0), op_parse(1, "S1", 1), op_parse(0, "S2", 0), op_fail_parse(0, "S1"), op_fail_parse(0, "S2"), op_fail_expr(0), op_new_all_none(0), op_new_positional(0), op_fail_parse_at_unit(0)]
     for j in (0, 1):
         ops += [op_mut_scalar(j), op_mut_arr(j), op_mut_nested(j), op_mut_arrstruct(j), op_mut_union(j), op_mut_2d(j), op_mut_dyn(j), op_mut_anon(j), op_mut_anon_arr(j), op_mut_grid(j), op_mut_cube(j), op_mut_zero(j)]
     ops += [op_load_extra(0), op_flip(0), op_flip(1), op_add_type(0), op_add_type(1), op_load_alias_user(0), op_load_alias_user(1), op_redefine_const(0)]
@@ -275,7 +291,12 @@ def check_invariant(w: World, hist, res: JobResult):
         # dumps reflects exactly this instance's value under its cstruct's *current* endianness
         cfg = Cfg(endian=w.endian[ci], consts={"NK": w.created_nk.get(id(obj), w.nk[ci])})  # the array length was fixed when the value was made
         if tn == "S1" and v.get("z0"):
-            continue  # a grown zero-length array is refused on dump (C07): nothing to compare
+            # a grown zero-length array is refused on dump (C07) - the attempt itself (a dump that fails half-way) must leave nothing behind either
+            try:
+                obj.dumps()
+            except Exception:  # noqa: BLE001
+                pass
+            continue
         try:
             out = obj.dumps()
             back, _ = decode(TYPES[tn], out + b"\x00" * 4, 0, cfg)
